@@ -29,7 +29,15 @@ ASSUMPTIONS = [
     '"unsupported or unroutable request" is read at CIP level (unsupported service code, unknown tag/object inside SendRRData); '
     'frames with an unknown *encapsulation command* are not generated here (the simulator closes the connection without a '
     'reply; C08 covers "reply or close")',
-    'every second shard runs against a simulator started with --route-path 1/0 (wrapped requests then carry 1/0; the final '
+    'client-context clause: the library\'s own client writes 1..8 reads with explicit sender contexts (0..8 bytes, NUL bytes '
+    'in any position) before reading any reply; collect() must report every reply, in order, under its request\'s context '
+    'with only the documented right-hand NUL padding removed',
+    'every fourth shard runs against a simulator started with --size 150 (documented: "Limit EtherNet/IP encapsulated request '
+    'size"): the first frame whose encapsulated payload is longer must be answered by exactly one frame with a non-zero '
+    'encapsulation status echoing context and session, after which the server ends the session',
+    'bundle members also address other objects (Get Attributes All / Get Attribute Single / Get Attribute List on Identity, '
+    'TCP/IP, unknown classes and instances): every member reply must decode and carry the member\'s service code | 0x80',
+    'every fourth shard runs against a simulator started with --route-path 1/0 (wrapped requests then carry 1/0; the final '
     'frame may carry a route path differing in port, link, length or link kind, which must be answered with a non-zero '
     'encapsulation status); against the unconfigured simulator the same frame is an ordinary request',
     'at most one request that must end the session (non-zero encapsulation status) per sequence, placed last, because the '
@@ -80,6 +88,21 @@ def member_op(draw):
     return op
 
 
+FOREIGN_MEMBERS = [    # (service, path): Get Attributes All / Get Attribute Single on other objects, existing and not
+    (0x01, [{'class': 1}, {'instance': 1}]), (0x01, [{'class': 0xF5}, {'instance': 1}]), (0x01, [{'class': 0x95}, {'instance': 1}]),
+    (0x01, [{'class': 2}, {'instance': 9}]), (0x0E, [{'class': 1}, {'instance': 1}, {'attribute': 7}]),
+    (0x0E, [{'class': 0x95}, {'instance': 1}, {'attribute': 1}]), (0x0E, [{'class': 1}, {'instance': 1}, {'attribute': 99}]),
+    (0x03, [{'class': 1}, {'instance': 1}]), (0x03, [{'class': 0x95}, {'instance': 3}]),
+]
+
+
+@st.composite
+def bundle_member(draw):
+    if draw(st.integers(0, 5)) == 0:
+        return {'foreign': draw(st.integers(0, len(FOREIGN_MEMBERS) - 1))}
+    return draw(member_op())
+
+
 @st.composite
 def request(draw):
     kind = draw(st.sampled_from(['op', 'op', 'op', 'op', 'bundle', 'gaa', 'list_services', 'list_identity', 'list_interfaces', 'legacy']))
@@ -87,29 +110,41 @@ def request(draw):
     if kind == 'op':
         r['op'] = draw(member_op())
     elif kind == 'bundle':
-        r['ops'] = draw(st.lists(member_op(), min_size=1, max_size=8))
+        r['ops'] = draw(st.lists(bundle_member(), min_size=1, max_size=8))
     elif kind == 'gaa':
         r['wrap'] = draw(st.booleans())
     return r
 
 
 @st.composite
-def cases(draw, max_len, routed=False):
+def cases(draw, max_len, routed=False, sized=None):
     reqs = draw(st.lists(request(), min_size=1, max_size=max_len))
-    final = draw(st.sampled_from(['unregister', 'unregister', 'bad_service', 'unknown_tag', 'unknown_object', 'wrong_route']))
+    final = draw(st.sampled_from(['unregister', 'unregister', 'bad_service', 'unknown_tag', 'unknown_object', 'wrong_route'] +
+                                 (['oversize'] * 3 if sized else [])))
     depth = draw(st.sampled_from([1, 2, 8, 1000]))
     return {'requests': reqs, 'final': {'kind': final, 'context': draw(contexts), 'how': draw(st.sampled_from(['port', 'link', 'longer', 'kind', 'other']))},
-            'depth': depth, 'routed': routed,
+            'depth': depth, 'routed': routed, 'sized': sized, 'oversize_count': draw(st.integers(40, 110)),
             'register_context': draw(contexts)}
 
 
 def encode_request(r, handle):
     """-> (frame bytes, expectation dict)"""
+    frame, exp = _encode_request(r, handle)
+    if r.get('oversize'):
+        # the simulator was started with --size N and this frame's encapsulated payload is longer: refused as a whole
+        exp = {'cmd': exp['cmd'], 'ok': False}
+    return frame, exp
+
+
+def _encode_request(r, handle):
     addr = _addresses()
     ctx = bytes.fromhex(r['context'])
     k = r['kind']
 
     def opmsg(op):
+        if 'foreign' in op:
+            svc, path = FOREIGN_MEMBERS[op['foreign']]
+            return rc.mr_request(svc, path, b'\x02\x00\x01\x00\x02\x00' if svc == 0x03 else b'')
         if op.get('unknown_object'):
             return M.op_message(op, None, tuple(op['unknown_object']))
         s = [x for x in SPECS if x['name'].lower() == op['tag'].lower()][0]
@@ -121,8 +156,10 @@ def encode_request(r, handle):
         wrap = op.get('wrap', True) or op['svc'] == 'read_frag'
         return rc.rr_frame(handle, rc.unconnected_send(msg, route_path=ROUTE[0]) if wrap else msg, ctx), {'cmd': 0x6F, 'service': msg[0] | 0x80, 'ok': True}
     if k == 'bundle':
-        msg = rc.req_multiple([opmsg(op) for op in r['ops']])
-        return rc.rr_frame(handle, rc.unconnected_send(msg, route_path=ROUTE[0]), ctx), {'cmd': 0x6F, 'service': 0x8A, 'ok': True, 'members': len(r['ops'])}
+        msgs = [opmsg(op) for op in r['ops']]
+        msg = rc.req_multiple(msgs)
+        return rc.rr_frame(handle, rc.unconnected_send(msg, route_path=ROUTE[0]), ctx), {'cmd': 0x6F, 'service': 0x8A, 'ok': True, 'members': len(r['ops']),
+                                                                                      'member_services': [m[0] | 0x80 for m in msgs]}
     if k == 'gaa':
         msg = rc.req_get_attributes_all([{'class': 1}, {'instance': 1}])
         return rc.rr_frame(handle, rc.unconnected_send(msg, route_path=ROUTE[0]) if r.get('wrap') else msg, ctx), {'cmd': 0x6F, 'service': 0x81, 'ok': True}
@@ -144,6 +181,11 @@ def encode_request(r, handle):
             # an unconfigured simulator accepts any route path: this is then an ordinary request, followed by the session's end
             return rc.rr_frame(handle, rc.unconnected_send(msg, route_path=wrong), ctx), {'cmd': 0x6F, 'service': 0xCC, 'ok': True, 'then_eof': False}
         return rc.rr_frame(handle, rc.unconnected_send(msg, route_path=wrong), ctx), {'cmd': 0x6F, 'ok': False}
+    if k == 'oversize':
+        n = r.get('count', 100)
+        msg = M.op_message({'svc': 'write_frag', 'tag': 'Big', 'form': 'sym', 'elem': 0, 'count': n, 'offset': 0, 'type': 'DINT',
+                            'values': list(range(n))}, 'DINT', addr['Big'])
+        return rc.rr_frame(handle, rc.unconnected_send(msg, route_path=ROUTE[0]), ctx), {'cmd': 0x6F, 'service': 0xD3, 'ok': True}
     if k == 'unknown_object':
         msg = rc.req_get_attribute_single([{'class': 0x95}, {'instance': 1}, {'attribute': 1}])
         return rc.rr_frame(handle, rc.unconnected_send(msg, route_path=ROUTE[0]), ctx), {'cmd': 0x6F, 'ok': False}
@@ -185,6 +227,17 @@ def judge_reply(i, r, exp, frame, handle, ctx):
                 members = rc.dec_multiple_body(mr['data'])
                 if len(members) != exp['members']:
                     out.append(('bundle-member-count', {'index': i, 'want': exp['members'], 'got': len(members)}))
+                else:
+                    for k, (m, want) in enumerate(zip(members, exp['member_services'])):
+                        try:
+                            got_svc = rc.dec_mr_reply(m)['service']
+                        except rc.RefDecodeError as exc:
+                            out.append(('bundle-member-reply-malformed', {'index': i, 'member': k, 'error': str(exc), 'reply': bytes(m).hex()}))
+                            break
+                        if got_svc != want:
+                            out.append(('bundle-member-reply-service-is-not-request-service-with-reply-bit',
+                                        {'index': i, 'member': k, 'want': want, 'got': got_svc, 'request': r['ops'][k]}))
+                            break
             except rc.RefDecodeError as exc:
                 out.append(('bundle-reply-malformed', {'index': i, 'error': str(exc)}))
     return out
@@ -297,7 +350,7 @@ def run_inproc(case):
         class UCMM(ucmm.UCMM):
             route_path = [{'port': 1, 'link': 0}]
         ucmm_class = UCMM
-    dev = sim.Device(SPECS, ucmm_class=ucmm_class)
+    dev = sim.Device(SPECS, ucmm_class=ucmm_class, size=case.get('sized'))
     try:
         addr = ('127.0.0.9', 4242)
         rctx = bytes.fromhex(case['register_context'])
@@ -352,15 +405,28 @@ _SERVER = [None]
 
 
 def pred(case, stats):
-    ROUTE[0] = [{'port': 1, 'link': 0}] if case.get('routed') else None
-    have = sim._PER_PROCESS.get('c06-routed' if not case.get('routed') else 'c06-plain')
     import os
-    if have is not None and have[0] == os.getpid():
-        raise common.HarnessError('this process already runs a simulator with the other route-path configuration')
-    _SERVER[0] = sim.per_process('c06-routed' if case.get('routed') else 'c06-plain',
-                                 lambda: sim.TcpServer(SPECS, extra_argv=(['--route-path', '1/0'] if ROUTE[0] else [])))
-    if case['final']['kind'] == 'wrong_route' and ROUTE[0] is None:
+    ROUTE[0] = [{'port': 1, 'link': 0}] if case.get('routed') else None
+    sized = case.get('sized')
+    key = 'c06-routed' if case.get('routed') else 'c06-sized-%d' % sized if sized else 'c06-plain'
+    for other, have in list(sim._PER_PROCESS.items()):
+        if other.startswith('c06-') and other != key and have[0] == os.getpid():
+            raise common.HarnessError('this process already runs a simulator with another configuration (%s)' % other)
+    argv = (['--route-path', '1/0'] if ROUTE[0] else []) + (['--size', str(sized)] if sized else [])
+    _SERVER[0] = sim.per_process(key, lambda: sim.TcpServer(SPECS, extra_argv=argv))
+    if case['final']['kind'] == 'oversize':
+        case = dict(case, final=dict(case['final'], count=case.get('oversize_count', 100)))
+    if ((case['final']['kind'] == 'wrong_route' and ROUTE[0] is None) or (case['final']['kind'] == 'oversize' and not sized)):
         case = dict(case, requests=case['requests'] + [case['final']], final={'kind': 'unregister', 'context': case['final']['context']})
+    if sized:
+        # the first frame whose encapsulated payload exceeds the configured size limit must be refused as a whole (non-zero
+        # encapsulation status) and ends the session: it becomes the final frame, what follows it is dropped
+        allreq = case['requests'] + [case['final']]
+        for j, r in enumerate(allreq):
+            if len(_encode_request(r, 0)[0]) - 24 > sized:
+                case = dict(case, requests=allreq[:j], final=dict(r, oversize=True))
+                stats.count('sized:oversize-frame-at:%d' % min(j, 5))
+                break
     nt = classify(case, None)
     stats.case(case, nontrivial=nt, classes=['final:' + case['final']['kind'], 'depth:%d' % case['depth'],
                                              'len:%d' % min(len(case['requests']), 10)] +
@@ -374,17 +440,56 @@ def pred(case, stats):
             stats.fail('sequence', sig, case, observed=detail, expected='one decodable reply per request, in order, echoing context and session')
 
 
-CLAUSES = {'sequence': pred}
-STRATEGIES = {'sequence': lambda key: cases(*key) if isinstance(key, (tuple, list)) else cases(key)}
+# -- clause: the library's own client reports each collected reply under the sender context of its request
+
+nul_biased_context = st.lists(st.sampled_from([0, 0, 0, 1, 0x41, 0x30, 0xFF, 7]), min_size=0, max_size=8).map(lambda l: bytes(l).hex())
+client_contexts = st.lists(st.one_of(nul_biased_context, st.binary(min_size=0, max_size=8).map(lambda b: b.hex())), min_size=1, max_size=8)
+
+
+def pred_client(case, stats):
+    from cpppo.server.enip import client
+    srv = _SERVER[0]
+    if srv is None:
+        srv = _SERVER[0] = sim.per_process('c06-plain', lambda: sim.TcpServer(SPECS))
+    ctxs = [bytes.fromhex(c) for c in case['contexts']]
+    stats.case(case, nontrivial=any(c[:1] == b'\0' and c.strip(b'\0') for c in ctxs) and len(ctxs) >= 2,
+               classes=['client:leading-nul' if any(c[:1] == b'\0' and c.strip(b'\0') for c in ctxs) else 'client:plain',
+                        'client:requests:%d' % len(ctxs)])
+    got = []
+    with client.connector(host=srv.address[0], port=srv.address[1], timeout=TIMEOUT) as conn:
+        for i, c in enumerate(ctxs):
+            conn.read('I16[%d]' % (i % 20), sender_context=c, timeout=TIMEOUT)       # all written before any reply is read
+        collector = conn.collect(timeout=TIMEOUT)
+        for c in ctxs:
+            r = next(collector, None)
+            if r is None:
+                break
+            got.append((bytes(r[0]), r[2]))
+    want = [(c.rstrip(b'\0'), 0) for c in ctxs]        # contexts are NUL-padded on the right to 8 bytes (documented)
+    norm = [(g[0], 0 if g[1] in (0, None) else g[1]) for g in got]
+    if norm != want:
+        first = [i for i, (a, b) in enumerate(zip(norm + [None] * len(want), want)) if a != b][:1]
+        stats.fail('client-context', 'client:reply-reported-under-other-sender-context' if len(got) == len(want) else 'client:reply-count',
+                   case, observed={'index': first, 'collected': [(g[0].hex(), g[1]) for g in got]},
+                   expected={'contexts': [w[0].hex() for w in want], 'status': 0})
+
+
+CLAUSES = {'sequence': pred, 'client-context': pred_client}
+STRATEGIES = {'sequence': lambda key: cases(*key) if isinstance(key, (tuple, list)) else cases(key),
+              'client-context': lambda key: st.fixed_dictionaries({'contexts': client_contexts})}
+SIZE_LIMIT = 150
 
 
 def shard(job):
     seed, i, n, k = job
     # every second shard runs against a simulator configured with --route-path 1/0 (requests then carry that route path)
-    routed = bool(i % 2)
+    routed = i % 4 == 1
+    sized = SIZE_LIMIT if i % 4 == 3 else None      # every fourth shard: a simulator started with --size 150
     s = Stats()
-    s.count('shard:routed' if routed else 'shard:unconfigured')
-    common.hyp_run(s, cases(k, routed), pred, n, common.shard_seed(seed, i), 'sequence', PID, skey=(k, routed))
+    s.count('shard:routed' if routed else 'shard:sized' if sized else 'shard:unconfigured')
+    common.hyp_run(s, cases(k, routed, sized), pred, n, common.shard_seed(seed, i), 'sequence', PID, skey=(k, routed, sized))
+    common.hyp_run(s, st.fixed_dictionaries({'contexts': client_contexts}), pred_client, max(5, n // 4), common.shard_seed(seed, 500 + i),
+                   'client-context', PID, skey=None)
     return s
 
 
